@@ -20,9 +20,10 @@ Requests (answers):
   verify <proof> <root> <leafhex> <index> -> true|false
   create <cfg> <k> <p> <nonce> <committee> <publisher> <msg> <parity,…>
         -> ok <root> <unitnonce> <shard,…> <proof0> … | err:<class> | panic
-  construct <cfg> <k> <p> <local> <rs> <unit> <unit> …
-        <rs>   = `none` | `<hex,hex,…>`  (what the real RecoverData returned for these shards)
-        <unit> = `nil` | `<root>|<hex,hex,…>` (MessageRoot, ShardData)
+  construct <cfg> <k> <p> <local> <rs> <roots> <unit> <unit> …
+        <rs>    = `none` | `<hex,hex,…>`  (what the real RecoverData returned for these shards)
+        <roots> = `t;t;…` the distinct MessageRoots of the units
+        <unit>  = `nil` | `<i>|<hex,hex,…>` (index into <roots>, ShardData)
         -> ok <msg> <localshard> <localproof> | err:<class> | panic
   sched <local> <peer,peer,…>        -> ok <k> <c> <localIdx> <sorted,…> | err:<class>
   origin <local> <peers> <sender> <publisher> <index> -> ok | err:<class>
@@ -63,31 +64,49 @@ def fastHex? (s : String) : Option Bytes :=
   let b := s.toUTF8
   fastHexAux b b.size []
 
-def isHexChar (c : Char) : Bool := (hexVal? c).isSome || c == '-'
+/-- Decode the hex digits `b[i..j)` (an even number of them) into bytes. -/
+def hexSlice (b : ByteArray) (i : Nat) : Nat → List UInt8 → Option (List UInt8)
+  | 0, acc => some acc
+  | 1, _ => none
+  | n + 2, acc =>
+    match nibble? (b.get! (i + n)), nibble? (b.get! (i + n + 1)) with
+    | some hi, some lo => hexSlice b i n ((hi <<< 4 ||| lo) :: acc)
+    | _, _ => none
 
-/-- Recursive-descent parser for hash terms. -/
-partial def parseTerm : List Char → Option (HTerm × List Char)
-  | 'L' :: rest =>
-    let h := rest.takeWhile isHexChar
-    (hexToBytes? (String.ofList h)).map (fun b => (.leaf b, rest.dropWhile isHexChar))
-  | 'R' :: rest =>
-    let h := rest.takeWhile isHexChar
-    (hexToBytes? (String.ofList h)).map (fun b => (.raw b, rest.dropWhile isHexChar))
-  | 'N' :: '(' :: rest => do
-    let (l, r1) ← parseTerm rest
-    match r1 with
-    | ',' :: r2 =>
-      let (r, r3) ← parseTerm r2
-      match r3 with
-      | ')' :: r4 => some (.node l r, r4)
-      | _ => none
-    | _ => none
-  | _ => none
+/-- End of the run of hex digits starting at `i`. -/
+partial def hexEnd (b : ByteArray) (i : Nat) : Nat :=
+  if i < b.size && (nibble? (b.get! i)).isSome then hexEnd b (i + 1) else i
+
+/-- The byte string after `L` / `R`: `-` (empty) or hex digits. Returns the bytes and the next
+position. -/
+def atomBytes (b : ByteArray) (i : Nat) : Option (Bytes × Nat) :=
+  if i < b.size && b.get! i == 45 then some ([], i + 1)   -- '-'
+  else
+    let j := hexEnd b i
+    (hexSlice b i (j - i) []).map (fun bs => (bs, j))
+
+/-- Recursive-descent parser for hash terms over the UTF-8 bytes of the token. -/
+partial def parseTermAt (b : ByteArray) (i : Nat) : Option (HTerm × Nat) :=
+  if i ≥ b.size then none else
+  let c := b.get! i
+  if c == 76 then (atomBytes b (i + 1)).map (fun (bs, j) => (.leaf bs, j))        -- 'L'
+  else if c == 82 then (atomBytes b (i + 1)).map (fun (bs, j) => (.raw bs, j))   -- 'R'
+  else if c == 78 && i + 1 < b.size && b.get! (i + 1) == 40 then                   -- "N("
+    match parseTermAt b (i + 2) with
+    | some (l, j) =>
+      if j < b.size && b.get! j == 44 then                                          -- ','
+        match parseTermAt b (j + 1) with
+        | some (r, k) => if k < b.size && b.get! k == 41 then some (.node l r, k + 1) else none  -- ')'
+        | none => none
+      else none
+    | none => none
+  else none
 
 def term? (s : String) : Option HTerm :=
-  match parseTerm s.toList with
-  | some (t, []) => some t
-  | _ => none
+  let b := s.toUTF8
+  match parseTermAt b 0 with
+  | some (t, j) => if j == b.size then some t else none
+  | none => none
 
 def listOf? {α : Type} (sep : String) (p : String → Option α) (s : String) : Option (List α) :=
   if s == "-" then some [] else (s.splitOn sep).mapM p
@@ -133,11 +152,12 @@ def rsOracle (parity : List Bytes) (recovered : Option (List Bytes)) : RS :=
 on the Go side), `verify` answers with the bit computed by the real public key on the Go side. -/
 def sigOracle (ok : Bool) : SigScheme HTerm := ⟨fun _ => [], fun _ _ _ => ok⟩
 
-def unit? (s : String) : Option (Option (PUnit HTerm)) :=
+def unit? (roots : List HTerm) (s : String) : Option (Option (PUnit HTerm)) :=
   if s == "nil" then some none else
   match s.splitOn "|" with
   | [r, sh] => do
-    let r ← term? r
+    let ri ← r.toNat?
+    let r ← roots[ri]?
     let sh ← hexList? sh
     some (some ⟨[], [], r, [], [], 0, sh, 0⟩)
   | _ => none
@@ -202,8 +222,8 @@ def step (s : St) (line : String) : St × String :=
             (termToString u.root :: toString u.nonce :: hexList (us.map (fun u => u.shards.headD []))
               :: us.map (fun u => termList u.proof))) r)
     | _, _, _, _, _, _, _, _ => (s, "bad-op")
-  | "construct" :: c :: k :: p :: loc :: rs :: units =>
-    match cfg? c, k.toNat?, p.toNat?, loc.toNat?, units.mapM unit?,
+  | "construct" :: c :: k :: p :: loc :: rs :: roots :: units =>
+    match cfg? c, k.toNat?, p.toNat?, loc.toNat?, (terms? roots).bind (fun rts => units.mapM (unit? rts)),
           (if rs == "none" then some none else (hexList? rs).map some) with
     | some c, some k, some p, some loc, some units, some rec =>
       let r := construct c termFns (rsOracle [] rec) units loc k p
